@@ -751,7 +751,7 @@ fn main() {
         stats.merge(p);
     }
     if stats.get("traces_validated_against_impl") < 100 || stats.get("distinct_outcome_tuples") <= stats.get("scenarios") {
-        machinery(&format!(
+        vacuous(&format!(
             "vacuous exploration: {} schedules, {} outcome tuples over {} scenarios",
             stats.get("traces_validated_against_impl"),
             stats.get("distinct_outcome_tuples"),
